@@ -129,6 +129,19 @@ def NormProg(prog):
   p.setdefault('makes', [])
   p.setdefault('rec', [])
   p['annpreds'] = list(prog.get('annpreds', []))
+  reserved = set()
+
+  def Names(x):
+    if isinstance(x, dict):
+      if x.get('k') == 'var' and str(x.get('name', '')).startswith('x_'):
+        reserved.add(x['name'])
+      for v in x.values():
+        Names(v)
+    elif isinstance(x, list):
+      for v in x:
+        Names(v)
+  Names(p['preds'])
+  p['reserved'] = sorted(reserved)
   for c in p['rec']:
     c.setdefault('iterative', False)
   for pred in p['preds']:
